@@ -65,10 +65,10 @@ RULES = [
      'GenesisMetadata.Validate rejects empty keys and values (gx_validate => gx_init never reaches the panic)'),
     (r'core/client/keeper/keeper\.go', r'Keeper\.(SetChainName|SetClientState|SetClientConsensusState|GetClientState|clearClientStore)', 'lib', r'.*', B, None,
      'constant / prefixed non-empty key, non-nil value (marshalled message or []byte(string))'),
-    (r'core/client/keeper/relayer\.go', r'Keeper\.RegisterRelayers', 'lib', r'store\.Set\(\[\]byte\(address\)', F, None,
-     'proposal path: the address passed AccAddressFromBech32 (non-empty) - handle_xprop_safe; GENESIS path: Validate does not '
-     'look at the relayers, an empty address panics "key is nil": finding xibc-genesis-relayer-empty-address '
-     '(gx_init_safe needs relayers_nonempty, C15_xibc_genesis_relayer_refuted shows it is necessary)'),
+    (r'core/client/keeper/relayer\.go', r'Keeper\.RegisterRelayers', 'lib', r'store\.Set\(\[\]byte\(address\)', G, '@gx_init_safe',
+     'the address is the store key: proposals (ValidateBasic) and, since d9df21a, the genesis validation (IdentifiedRelayer.Validate, '
+     'model relayer_ok) require a bech32 address, which is never empty (handle_xprop_safe; gx_init_safe with relayer_check = true; '
+     'the pinned behaviour is refuted in C15_xibc_genesis_relayer_refuted)'),
     (r'core/client/keeper/relayer\.go', r'Keeper\.RegisterRelayers', 'must', r'MustMarshal', B, None, 'marshalling strings cannot fail'),
     (r'core/client/genesis\.go', r'InitGenesis', 'lib|panic', r'.*', G, '@gx_init_safe',
      'GenesisState.Validate has type-asserted the cached values of every listed client / consensus state (gx_validate_clients_vals)'),
